@@ -183,6 +183,21 @@ func init() {
 		}
 		emitBool("scram_start_resets", startResets, "scramAuth.Start calls a.reset() before returning the mechanism name")
 
+		// Next: the branch for an EMPTY challenge is "a.reset(); return a.initialClientMessage()"
+		restartResets := false
+		if fn, ok := sp.funcs["scramAuth.Next"]; ok && fn.Body != nil {
+			for _, is := range ifStmts(fn) {
+				if sp.src(is.Cond) == "len(fromServer) == 0" && len(is.Body.List) == 2 {
+					es, ok1 := is.Body.List[0].(*ast.ExprStmt)
+					rs, ok2 := is.Body.List[1].(*ast.ReturnStmt)
+					if ok1 && ok2 && sp.src(es.X) == "a.reset()" && len(rs.Results) == 1 && sp.src(rs.Results[0]) == "a.initialClientMessage()" {
+						restartResets = true
+					}
+				}
+			}
+		}
+		emitBool("scram_restart_resets", restartResets, "scramAuth.Next: if len(fromServer) == 0 { a.reset(); return a.initialClientMessage() }")
+
 		finalReq := false
 		if fn, ok := sp.funcs["scramAuth.handleServerValidationMessage"]; ok && fn.Body != nil && len(fn.Body.List) > 0 {
 			if is, ok := fn.Body.List[0].(*ast.IfStmt); ok {
